@@ -63,3 +63,25 @@ pub open spec fn call_name(c: GlobalCallContext) -> Seq<char> {
 }
 pub assume_specification<T: std::ops::Deref> [std::option::Option::<T>::as_deref] (o: &std::option::Option<T>) -> (r: std::option::Option<&<T as std::ops::Deref>::Target>)
     ensures r is Some <==> o is Some;
+// ---- list and map literals ----
+pub struct OptExprContextAll { pub e: Option<Rc<ExprContextAll>>, pub opt: Option<Box<CommonToken>> }
+pub struct ListInitContextAll { pub elems: Vec<Rc<OptExprContextAll>> }
+pub struct OptKeyContextAll { pub e: ExprContextAll, pub opt: Option<Box<CommonToken>> }
+pub uninterp spec fn visit_key_spec(node: OptKeyContextAll) -> Expr;
+pub struct MapInitializerListContextAll { pub keys: Vec<Rc<OptKeyContextAll>>, pub values: Vec<Rc<ExprContextAll>>, pub cols: Vec<CommonToken> }
+pub struct CreateListContext { pub op: Option<Box<CommonToken>>, pub elems: Option<Rc<ListInitContextAll>> }
+pub struct CreateStructContext { pub op: Option<Box<CommonToken>>, pub entries: Option<Rc<MapInitializerListContextAll>> }
+impl Parser {
+    #[verifier::external_body] fn visit_key(&mut self, node: &OptKeyContextAll) -> (r: IdedExpr) ensures r.expr == visit_key_spec(*node), final(self).errors@.len() >= old(self).errors@.len() { unimplemented!() }
+}
+/// every element of the list literal is a plain expression (no `?` marker, present)
+pub open spec fn plain_list(l: ListInitContextAll) -> bool { forall|i: int| 0 <= i < l.elems@.len() ==> (#[trigger] l.elems@[i]).e is Some && l.elems@[i].opt is None }
+pub open spec fn list_exprs(l: ListInitContextAll) -> Seq<Expr> { Seq::new(l.elems@.len(), |i: int| visit_expr_spec(*l.elems@[i].e->Some_0)) }
+pub open spec fn plain_map(m: MapInitializerListContextAll) -> bool {
+    m.keys@.len() == m.cols@.len() && m.values@.len() == m.cols@.len() && forall|i: int| 0 <= i < m.keys@.len() ==> (#[trigger] m.keys@[i]).opt is None
+}
+/// entry i of the map literal is (key i, value i), in source order, none optional
+pub open spec fn map_entries_ok(r: Seq<IdedEntryExpr>, m: MapInitializerListContextAll) -> bool {
+    r.len() == m.cols@.len() && forall|i: int| 0 <= i < r.len() ==> ((#[trigger] r[i]).expr matches EntryExpr::MapEntry(en)
+        && en.key.expr == visit_key_spec(*m.keys@[i]) && en.value.expr == visit_expr_spec(*m.values@[i]) && !en.optional)
+}
